@@ -44,6 +44,9 @@ def jobs(tier):
             continue
         for impl in F.IMPLS:
             w = 8 if impl == 'py' else 2
+            if fam[0] == 'O':
+                js.append({'fn': 'job', 'weight': w, 'group': impl,
+                           'args': dict(fam=fam, impl=impl, n=3, weights='few', variant='none')})
             if tier == 'quick':
                 js.append({'fn': 'job', 'weight': w, 'group': impl,
                            'args': dict(fam=fam, impl=impl, n=3, weights='all')})
@@ -101,10 +104,10 @@ def make(fam, impl, form, subset, keys, vals):
     return c
 
 
-def job(fam, impl, n, weights):
+def job(fam, impl, n, weights, variant='centred'):
     mod = F.module(fam)
     sfx = 'Py' if impl == 'py' else ''
-    keys, grid = F.universe(fam, n, 'centred')
+    keys, grid = F.universe(fam, n, variant)
     vals, ws, rng = alphabets(fam)
     F.set_sizes(fam, 2, 2)
     wpairs = list(itertools.product(ws, repeat=2))
@@ -120,7 +123,7 @@ def job(fam, impl, n, weights):
     subsets = [tuple(k for k, c in zip(keys, combo) if c)
                for combo in itertools.product((False, True), repeat=len(keys))]
     setname, bucketname = fam + 'Set', fam + 'Bucket'
-    base = dict(fam=fam, impl=impl, n=n, weights=weights)
+    base = dict(fam=fam, impl=impl, n=n, weights=weights, variant=variant)
     is_float = fam[1] == 'F'
 
     def value_map(form, subset):
@@ -250,7 +253,7 @@ def job(fam, impl, n, weights):
 
 
 def replay(case):
-    r = job(case['fam'], case['impl'], case['n'], case['weights'])
+    r = job(case['fam'], case['impl'], case['n'], case['weights'], case.get('variant', 'centred'))
     vs = [v for v in r['violations'] if all(v['case'].get(k) == case.get(k)
                                             for k in ('A', 'B', 'fa', 'fb', 'w', 'fn'))]
     return dict(violations=vs)
